@@ -70,6 +70,20 @@ PrefixExtAt(j) ==
   IN  IF j % 2 = 0 THEN KItem("path.parse", "known_prefix_extended", [text |-> text])
       ELSE KItem("hdk.derive", "known_prefix_extended", [seed |-> BytesToHex(Prng(K("pxseed", <<j % 5>>), 32)), path |-> text])
 
+\* every COMPONENT text of 1..4 characters over the component alphabet (' 0 1 9 - . + SPACE), as the only component and as
+\* a middle component of a deeper path: digits after the hardened marker (0'0 - a forgotten slash), doubled and leading
+\* markers, signs and points in every place.  (The strings family above reaches whole paths of 4 / 5 characters only.)
+CompAlphabet == <<39, 48, 49, 57, 45, 46, 43, 32>>
+CompNo(len, k) == [i \in 1..len |-> CompAlphabet[1 + ((k \div (8 ^ (len - i))) % 8)]]
+NCompStr == 8 + 64 + 512 + 4096
+CompStr(j) ==           \* j in 1..NCompStr
+  LET len == CHOOSE l \in 1..4 : (8 ^ l - 8) \div 7 < j /\ j <= (8 ^ (l + 1) - 8) \div 7
+  IN  CompNo(len, j - 1 - (8 ^ len - 8) \div 7)
+NCompShapes == 2 * NCompStr
+CompShapeAt(j) ==
+  LET c == Str(CompStr(1 + ((j - 1) % NCompStr)))
+  IN  KItem("path.parse", "component_shapes", [text |-> IF j <= NCompStr THEN "m/" \o c ELSE "m/44'/" \o c \o "/0"])
+
 \* every character U+0001..U+00FF before and after the digit of a path component
 NPathEveryChar == 2 * NTryChars
 PathEveryCharAt(j) ==
@@ -96,6 +110,24 @@ HistAt(j) ==
       np   == IF j % 2 = 0 THEN 2 ELSE 6
       step(k) == [seed |-> BytesToHex(HistSeed(j, ((k * mult) + j) % 8)), path |-> HistPaths[1 + ((k + (j \div 8)) % np)]]
   IN  KItem("hdk.derive.seq", "history", [steps |-> [k \in 1..12 |-> step(k)]])
+
+\* HISTORIES over RELATED PATHS with one seed: every ordered pair (A, B) of the paths  P/x  and  P/x/y  with x, y from a
+\* component alphabet whose texts are prefixes of one another (1, 10, 1', 0, ...), derived one after the other on one
+\* thread.  A memo of intermediate nodes keyed by path TEXT, by a component prefix, by depth, or by the index without
+\* the hardened bit answers one of the pairs wrongly (m/../1/0 then m/../10/0).
+RelComps == IF Thorough THEN <<"1", "10", "1'", "0", "0'", "100", "2147483647">> ELSE <<"1", "10", "1'", "0">>
+RelPrefix == "m/44'/60'/0'"
+NRelPaths == Len(RelComps) + Len(RelComps) * Len(RelComps)
+RelPath(p) ==           \* p in 0..NRelPaths-1
+  LET L == Len(RelComps) IN
+  IF p < L THEN RelPrefix \o "/" \o RelComps[p + 1]
+  ELSE RelPrefix \o "/" \o RelComps[1 + ((p - L) \div L)] \o "/" \o RelComps[1 + ((p - L) % L)]
+NRelHist == (NRelPaths * NRelPaths + 5) \div 6
+RelHistAt(j) ==
+  LET sd == BytesToHex(Prng(K("relseed", <<j % 3>>), 64))
+      step(k) == LET q == ((j - 1) * 6 + ((k - 1) \div 2)) % (NRelPaths * NRelPaths)
+                 IN  [seed |-> sd, path |-> RelPath(IF k % 2 = 1 THEN q \div NRelPaths ELSE q % NRelPaths)]
+  IN  KItem("hdk.derive.seq", "history_related_paths", [steps |-> [k \in 1..12 |-> step(k)]])
 
 ForIdx == <<<<>>, <<1>>, <<2>>, <<7>>, <<1, 0, 0>>, BnSub(Two31, <<1>>), Two31, BnSub(BnPow2(32), <<1>>), BnPow2(32), BnPow2(63)>>
 ForIndexAt(j) == KItem("path.for_index", "for_index", [index |-> Str(DecCodes(BnToDec(ForIdx[j])))])
